@@ -8,4 +8,4 @@ S=$(mktemp -d /dev/shm/trypatch.XXXXXX)
 trap 'rm -rf "$S"' EXIT
 cp -r /repo/src "$S/src"
 (cd "$S" && patch -p1 -s < "$PATCH")
-VERIF_REPO_SRC="$S/src" VERIF_REPLAY_DIR="$S/replays" /verif/check "$PROP" --no-evidence "$@" | cut -c1-260 | sort | uniq -c | sort -rn | head -30
+VERIF_REPO_SRC="$S/src" VERIF_REPLAY_DIR="$S/replays" "$(dirname "$0")/../check" "$PROP" --no-evidence "$@" | cut -c1-260 | sort | uniq -c | sort -rn | head -30
